@@ -3,7 +3,7 @@ siblings, left/right sibling, node_path, root, is_root, is_leaf, depth, max_dept
 and BinaryNode.is_leaf, observed on every node (every ordered pair of nodes) of generated trees (C12).
 
 A case is plain JSON:
-  {"kind": "tree", "cls": "Node"|"BaseNode"|"Sub", "names": "distinct"|"repeated", "build": [...],
+  {"kind": "tree", "cls": "Node"|"BaseNode"|"Sub"|"Binary"|"Falsy*"|"Eq*", "names": "distinct"|"repeated", "build": [...],
    "kids": [[child tags] per tag], "root": tag, "other": {"kids": ..., "root": tag} | None,
    "gotos": [[self_tag, ["same", tag] | ["other", tag] | ["junk", kind]], ...]}
   {"kind": "binary", "slots": [[left tag | None, right tag | None] per tag], "root": tag, "build": [...],
@@ -65,6 +65,9 @@ def depth_of(kids, root):
 
 
 def _name(case, tag, child_index):
+    nl = case.get("namelist")
+    if nl is not None:                 # value-equality classes: explicit names of the first tree; the second tree's differ
+        return nl[tag] if tag < len(nl) else "z" + str(tag)
     if case.get("names") == "repeated":
         return "abcdefghijklmnop"[child_index]
     return "abcdefghijklmnopqrstuvwxyz"[tag % 26] + ("" if tag < 26 else str(tag // 26))
@@ -120,10 +123,68 @@ def _cls(name):
     return _SUB["Sub"]
 
 
-def _make_objs(case, kids, n_total_before=0):
+SPECIAL = ("FalsyNode", "FalsyBase", "FalsyBinary", "EqNode", "EqBase", "EqBinary")
+
+
+def is_binary_cls(c):
+    return c in ("Binary", "FalsyBinary", "EqBinary")
+
+
+def _special_cls(name, flavour):
+    """legal user subclasses: instances that can be falsy (a bag: len() = number of items kept in the node, or an
+    explicit __bool__), and value semantics (__eq__/__hash__ by name: distinct nodes can compare equal)"""
+    key = (name, flavour)
+    if key in _SUB:
+        return _SUB[key]
+    from bigtree.node.basenode import BaseNode
+    from bigtree.node.binarynode import BinaryNode
+    from bigtree.node.node import Node
+    base = {"Node": Node, "Base": BaseNode, "Binary": BinaryNode}[name.replace("Falsy", "").replace("Eq", "")]
+    if name.startswith("Falsy"):
+        if flavour == "bool":
+            class Falsy(base):
+                def __bool__(self):
+                    return bool(self.items)
+        else:
+            class Falsy(base):
+                def __len__(self):
+                    return len(self.items)
+        c = Falsy
+    else:
+        class ByName(base):
+            def __eq__(self, other):
+                return isinstance(other, ByName) and other.name == self.name
+
+            def __hash__(self):
+                return hash(self.name)
+        c = ByName
+    _SUB[key] = c
+    return c
+
+
+def _make_special(case, kids, n_total_before, falsy):
+    ci = _child_index(kids)
+    c = _special_cls(case["cls"], case.get("flavour", "len"))
+    objs = []
+    for t in range(len(kids)):
+        nm = _name(case, t + n_total_before, ci.get(t, 0))
+        if case["cls"].endswith("Base"):
+            o = c()
+            o.name = nm
+        else:
+            o = c(nm)
+        if case["cls"].startswith("Falsy"):
+            o.items = [] if (falsy and falsy[t]) else ["item"]
+        objs.append(o)
+    return objs
+
+
+def _make_objs(case, kids, n_total_before=0, falsy=None):
     """one object per tag, in tag order"""
     ci = _child_index(kids)
     n = len(kids)
+    if case["cls"] in SPECIAL:
+        return _make_special(case, kids, n_total_before, falsy)
     if case["cls"] == "Binary":
         from bigtree.node.binarynode import BinaryNode
         return [BinaryNode(_name(case, t + n_total_before, ci.get(t, 0))) for t in range(n)]
@@ -150,7 +211,7 @@ def _link(case, objs, kids, root, sides=None):
         if not kids[p]:
             continue
         mode = modes[k % len(modes)]
-        if case["cls"] == "Binary":
+        if is_binary_cls(case["cls"]):
             l, r = [None if c is None else objs[c] for c in _slots(case, kids, p, sides)]
             if mode in ("parent", "rshift", "append") and l is not None:
                 if r is None:
@@ -207,16 +268,84 @@ def _strict_bool(x):
     return x
 
 
+def first_principles(kids, root):
+    """the answers of the queries that can be undefined, read off the case's own links (used only as stand-ins)"""
+    par = parent_map(kids)
+    dep = depth_of(kids, root)
+    out = {}
+
+    def height(x):
+        return 1 + max([height(c) for c in kids[x]], default=0)
+
+    def diam(x):
+        hs = sorted((height(c) for c in kids[x]), reverse=True)
+        return max([sum(hs[:2])] + [diam(c) for c in kids[x]]) if kids[x] else 0
+
+    for t in preorder(kids, root):
+        sub = preorder(kids, t)
+        sib = kids[par[t]] if t in par else [t]
+        i = sib.index(t)
+        out[t] = {"desc": sub[1:], "leaves": [x for x in sub if not kids[x]],
+                  "left": sib[i - 1] if i > 0 else None, "right": sib[i + 1] if i + 1 < len(sib) else None,
+                  "isleaf": not kids[t], "diam": diam(t), "maxdepth": max(dep.values())}
+    return out
+
+
+def undefined_queries(case):
+    """Where the unchanged library's answer depends on the truth value / the equality of node objects, i.e. is not
+    defined by the links alone (reported to the coordinator; these answers are not observed):
+      falsy instances: preorder_iter tests `if tree` (descendants, leaves, max_depth lose a falsy node and everything
+        below it), left/right_sibling test `if self.parent:`, diameter filters `if child`, BinaryNode.is_leaf `if child`;
+      value equality: descendants filters `_node != self`, left/right_sibling use children.index(self)
+        (go_to pairs whose two root paths hold equal-but-distinct nodes are not generated at all)."""
+    cls = case["cls"]
+    if cls not in SPECIAL:
+        return {}
+    kids, root = case["kids"], case["root"]
+    par = parent_map(kids)
+    pre = preorder(kids, root)
+    out = {}
+    if cls.startswith("Falsy"):
+        F = {t for t, f in enumerate(case["falsy"]) if f}
+        for t in pre:
+            sub = preorder(kids, t)
+            u = set()
+            if par.get(t) in F:
+                u |= {"left", "right"}
+            if F & set(sub):
+                u |= {"desc", "leaves"}
+            if F & set(sub[1:]):
+                u.add("diam")
+            if F:
+                u.add("maxdepth")
+            if is_binary_cls(cls) and F & set(kids[t]):
+                u.add("isleaf")
+            out[t] = u
+    else:
+        nm = case["namelist"]
+        for t in pre:
+            sub = preorder(kids, t)
+            u = set()
+            if any(nm[d] == nm[t] for d in sub[1:]):
+                u.add("desc")
+            if any(nm[d] == nm[root] for d in pre[1:]):
+                u.add("maxdepth")
+            if t in par and any(nm[c] == nm[t] for c in kids[par[t]] if c != t):
+                u |= {"left", "right"}
+            out[t] = u
+    return out
+
+
 def _run_tree(case):
     kids, root = case["kids"], case["root"]
     n = len(kids)
     sides = case.get("sides")
-    objs = _make_objs(case, kids)
+    objs = _make_objs(case, kids, falsy=case.get("falsy"))
     others = []
     okids = oroot = None
     if case.get("other"):
         okids, oroot = case["other"]["kids"], case["other"]["root"]
-        others = _make_objs(case, okids, n_total_before=n)
+        others = _make_objs(case, okids, n_total_before=n, falsy=case["other"].get("falsy"))
     idx = {id(o): t for t, o in enumerate(objs)}
     for t, o in enumerate(others):
         idx[id(o)] = n + t
@@ -253,27 +382,37 @@ def _run_tree(case):
     def tgo(x):
         return None if x is None else tg(x)
 
-    binary = case["cls"] == "Binary"
+    binary = is_binary_cls(case["cls"])
+    undefined = undefined_queries(case)      # per node: the queries whose answer the unchanged library leaves undefined
+    links = first_principles(kids, root)     # ... and what stands in for them (never observed, never compared)
 
     def ask(o, t):
-        sibs = list(o.siblings)
-        if binary:                 # the empty-slot entries are checked by the `binary` cases (slot semantics)
-            sibs = [x for x in sibs if x is not None]
+        skip = undefined.get(t, ())
+
+        def q(name, f):
+            return links[t][name] if name in skip else f()
+
+        def sibs():
+            r = list(o.siblings)
+            if binary:             # the empty-slot entries are checked by the `binary` cases (slot semantics)
+                r = [x for x in r if x is not None]
+            return [tg(x) for x in r]
+
         return {
             "self": t,
             "anc": [tg(x) for x in o.ancestors],
-            "desc": [tg(x) for x in o.descendants],
-            "leaves": [tg(x) for x in o.leaves],
-            "sibs": [tg(x) for x in sibs],
-            "left": tgo(o.left_sibling),
-            "right": tgo(o.right_sibling),
+            "desc": q("desc", lambda: [tg(x) for x in o.descendants]),
+            "leaves": q("leaves", lambda: [tg(x) for x in o.leaves]),
+            "sibs": sibs(),
+            "left": q("left", lambda: tgo(o.left_sibling)),
+            "right": q("right", lambda: tgo(o.right_sibling)),
             "path": [tg(x) for x in o.node_path],
             "isroot": _strict_bool(o.is_root),
-            "isleaf": _strict_bool(o.is_leaf),
+            "isleaf": q("isleaf", lambda: _strict_bool(o.is_leaf)),
             "root": tg(o.root),
-            "diam": _strict_int(o.diameter),
+            "diam": q("diam", lambda: _strict_int(o.diameter)),
             "depth": _strict_int(o.depth),
-            "maxdepth": _strict_int(o.max_depth),
+            "maxdepth": q("maxdepth", lambda: _strict_int(o.max_depth)),
         }
 
     nodes = []
@@ -298,7 +437,7 @@ def _run_tree(case):
             gotos.append([0, [tg(x) for x in r]])
     # the queries are read-only: the links are still the ones that were built
     for t in range(n):
-        want = _slots(case, kids, t, sides) if binary else kids[t]
+        want = _slots(case, kids, t, sides) if binary else list(kids[t])
         got = [None if c is None else tg(c) for c in objs[t].children]
         if got != want:
             raise AssertionError("children of node %d after the queries: %r, built: %r" % (t, got, want))
@@ -575,12 +714,12 @@ def make_case(rng, shape, cls=None, tagging=None, all_pairs_upto=7, max_pairs=26
     tagging = tagging or rng.choice(["preorder", "random", "random", "reverse"])
     kids, root = number_shape(rng, shape, tagging)
     n = len(kids)
-    oshape = random_binary_shape(rng, rng.randint(1, 3)) if cls == "Binary" else random_shape(rng, "mixed", rng.randint(1, 3))
+    oshape = random_binary_shape(rng, rng.randint(1, 3)) if is_binary_cls(cls) else random_shape(rng, "mixed", rng.randint(1, 3))
     okids, oroot = number_shape(rng, oshape, "preorder")
     case = {"kind": "tree", "cls": cls, "names": rng.choice(["distinct", "repeated"]),
             "build": [rng.choice(BUILD_MODES) for _ in range(rng.randint(1, 3))],
             "kids": kids, "root": root, "other": {"kids": okids, "root": oroot}}
-    if cls == "Binary":
+    if is_binary_cls(cls):
         case["sides"] = [rng.randrange(2) for _ in range(n)]
         case["other"]["sides"] = [rng.randrange(2) for _ in okids]
     # how the objects got into this shape: built once | used in another tree before | a subtree taken out and put back
@@ -594,7 +733,7 @@ def make_case(rng, shape, cls=None, tagging=None, all_pairs_upto=7, max_pairs=26
         fan = [0] * total
         pre = [None]
         for i in range(1, total):
-            cands = [j for j in range(i) if cls != "Binary" or fan[j] < 2]
+            cands = [j for j in range(i) if not is_binary_cls(cls) or fan[j] < 2]
             pj = rng.choice(cands)
             fan[pj] += 1
             pre.append(pj)
@@ -603,7 +742,7 @@ def make_case(rng, shape, cls=None, tagging=None, all_pairs_upto=7, max_pairs=26
         x = rng.choice([t for t in range(n) if t != root])
         case["rt_node"] = x
         case["rt_to"] = None
-        if cls != "Binary" and (cls == "BaseNode" or case["names"] == "distinct") and rng.random() < 0.6:
+        if not is_binary_cls(cls) and (cls == "BaseNode" or case["names"] == "distinct") and rng.random() < 0.6:
             below = set(preorder(kids, x))
             par_x = parent_map(kids)[x]
             cands = [t for t in range(n) if t not in below and t != par_x]
@@ -665,6 +804,52 @@ def make_case(rng, shape, cls=None, tagging=None, all_pairs_upto=7, max_pairs=26
     return case
 
 
+def make_special_case(rng, shape, cls, **kw):
+    """a tree of a user subclass with falsy instances / value equality (see _special_cls), built once with children="""
+    case = make_case(rng, shape, cls=cls, history="fresh", **kw)
+    case["build"] = ["children"]
+    kids, root = case["kids"], case["root"]
+    n = len(kids)
+    par = parent_map(kids)
+    if cls.startswith("Falsy"):
+        case["flavour"] = rng.choice(["len", "len", "bool"])
+        rate = rng.choice([0.15, 0.3, 0.6, 1.0])
+        falsy = [1 if rng.random() < rate else 0 for _ in range(n)]
+        inner = [t for t in range(n) if kids[t]]
+        if inner and rng.random() < 0.8:          # a falsy node with nodes below it (root included now and then)
+            falsy[rng.choice(inner)] = 1
+        case["falsy"] = falsy
+        case["other"]["falsy"] = [rng.randrange(2) for _ in case["other"]["kids"]]
+        return case
+    # value equality: equal names in different branches and along one path
+    ci = _child_index(kids)
+    dep = depth_of(kids, root)
+    mode = rng.choice(["index", "index+depth", "pool"]) if cls != "EqNode" else rng.choice(["index", "index+depth"])
+    letters = "abcdefghijklmnopqrstuvwxyz"
+    if mode == "index":                          # sibling names distinct (Node demands it), repeated everywhere else
+        nl = [letters[ci.get(t, 0)] for t in range(n)]
+    elif mode == "index+depth":
+        k = rng.choice([2, 3])
+        nl = [letters[ci.get(t, 0) + 6 * (dep[t] % k) if ci.get(t, 0) < 6 else ci.get(t, 0)] for t in range(n)]
+    else:                                        # siblings may be equal too (BaseNode / BinaryNode do not mind)
+        nl = [rng.choice("abc") for _ in range(n)]
+    case["namelist"] = nl
+
+    def path(x):
+        out = [x]
+        while x in par:
+            x = par[x]
+            out.append(x)
+        return out
+
+    def clean(a, b):                             # no two distinct nodes on the two root paths compare equal
+        nodes = set(path(a)) | set(path(b))
+        return len({nl[t] for t in nodes}) == len(nodes)
+
+    case["gotos"] = [g for g in case["gotos"] if g[1][0] != "same" or clean(g[0], g[1][1])]
+    return case
+
+
 def make_binary_case(rng, n):
     """a binary tree with empty slots: each node gets (None, None), (x, None), (None, x) or (x, y)"""
     slots = [[None, None]]
@@ -697,6 +882,10 @@ def corpus(prop):
     out.append(("fixture-rebuilt", make_case(rng, fixture, cls="Node", tagging="random", all_pairs_upto=8, history="rebuild")))
     out.append(("fixture-roundtrip", make_case(rng, fixture, cls="Sub", tagging="preorder", all_pairs_upto=8, history="roundtrip")))
     out.append(("fixture-binary", make_case(rng, fixture, cls="Binary", tagging="preorder", all_pairs_upto=8, history="rebuild")))
+    for c in ("FalsyNode", "FalsyBase", "FalsyBinary"):     # top -> shelf (empty bag) -> box -> pouch, plus a drawer
+        k = make_special_case(rng, [[[[]]], []], c, tagging="preorder")
+        k["falsy"] = [0, 1, 0, 0, 0]
+        out.append(("falsy-ancestor", k))
     out.append(("single", make_case(rng, [], cls="Binary", tagging="preorder")))
     out.append(("single", make_case(rng, [], cls="Node", tagging="preorder")))
     out.append(("single", make_case(rng, [], cls="BaseNode", tagging="preorder")))
@@ -737,6 +926,18 @@ def generate(prop, rng, tier):
             yield "binary-queries-exhaustive", make_case(rng, shape, cls="Binary")
     for i in range(count // 9):
         yield "binary-queries", make_case(rng, random_binary_shape(rng, rng.randint(2, 12), deep=i % 2 == 0), cls="Binary")
+    # user subclasses with falsy instances / value equality, on Node, BaseNode and BinaryNode
+    nspecial = {"quick": 36, "thorough": 400, "search": 80}[tier]
+    for cls in SPECIAL:
+        for shape in shapes_upto(4):
+            if not is_binary_cls(cls) or shape_fanout(shape) <= 2:
+                yield "subclass-" + cls, make_special_case(rng, shape, cls)
+        for i in range(nspecial):
+            if is_binary_cls(cls):
+                shape = random_binary_shape(rng, rng.randint(3, 11), deep=i % 2 == 0)
+            else:
+                shape = random_shape(rng, ["deep", "mixed", "wide", "path", "caterpillar"][i % 5], rng.randint(3, 11))
+            yield "subclass-" + cls, make_special_case(rng, shape, cls)
     # long routes: 25-40 nodes, depth up to 40
     for i in range({"quick": 3, "thorough": 40, "search": 6}[tier]):
         n = rng.randint(25, 40)
@@ -764,6 +965,9 @@ def _remove_leaf(case, leaf):
     c["root"] = ren(case["root"])
     if case.get("sides"):
         c["sides"] = [x for t, x in enumerate(case["sides"]) if t != leaf]
+    for k in ("falsy", "namelist"):
+        if case.get(k) is not None:
+            c[k] = [x for t, x in enumerate(case[k]) if t != leaf]
     if case.get("history") == "rebuild":
         c["pre"] = [None] + list(range(len(nk) + len(case["other"]["kids"]) - 1))      # a chain
     if case.get("history") == "roundtrip":
@@ -813,8 +1017,12 @@ def shrink_candidates(prop, case):
         yield dict(case, history="fresh")
     if case.get("build") != ["children"]:
         yield dict(case, build=["children"])
-    if case["cls"] not in ("Node", "Binary"):
+    if case["cls"] not in ("Node", "Binary") and case["cls"] not in SPECIAL:
         yield dict(case, cls="Node")
+    if case.get("falsy"):
+        for t, f in enumerate(case["falsy"]):
+            if f:
+                yield dict(case, falsy=[0 if u == t else x for u, x in enumerate(case["falsy"])])
 
 
 def size(case):
@@ -847,7 +1055,10 @@ def rule(prop):
             "must still be the built ones; shapes: all ordered trees up to 6 (quick) / 8 (thorough) nodes incl. the one-node tree, "
             "random wide/deep/mixed/path/star/broom/caterpillar/tallest-children-last shapes with <= 12 nodes, a few 25-40 node "
             "trees of depth up to 40; classes BaseNode, Node, a Node subclass and BinaryNode (fan-out <= 2, only children on "
-            "either side); object histories: built once through children=/tuple/parent=/>>/append/extend | all objects (both "
+            "either side), and user subclasses of Node / BaseNode / BinaryNode whose instances can be falsy (__len__ = items in "
+            "the bag, or __bool__; falsy roots, inner nodes, leaves, all nodes) or have value equality (__eq__/__hash__ by name; "
+            "equal names across branches, along one path, among BaseNode/BinaryNode siblings) wherever the unchanged library's "
+            "answer is defined by the links (see partial_clauses); object histories: built once through children=/tuple/parent=/>>/append/extend | all objects (both "
             "trees) first linked into one other tree, queried, detached, then rebuilt | a subtree detached or hung elsewhere, "
             "queried, and put back; tags in pre-order/reverse/random creation order; `binary` cases: BinaryNode trees with empty "
             "slots for is_leaf and the inherited diameter / siblings (the other slot entries, None for an empty slot); "
@@ -875,7 +1086,12 @@ def partial_clauses(prop):
         "go_to is always asked OF a node of the first tree (towards the first tree, the second tree, a non-node), never of a node of the second tree",
         "BinaryNode trees asked the 13 queries: the None entries of siblings are dropped there and checked (slot semantics) only by the `binary` cases",
         "routes longer than 40 nodes are not generated (depth / root / node_path recurse per level: CPython's recursion limit near depth 1000 is not modelled)",
-        "node subclasses that override __eq__ / __hash__ / __bool__ / __len__ are not generated (the code mixes `is`, ==, != and truthiness tests; "
-        "on the unchanged tree a subclass with __len__ = number of children loses its leaves from descendants / leaves and diameter raises ValueError)",
+        "falsy-instance subclasses: NOT observed (the unchanged library answers by truth value, not by the links): descendants / leaves of a node "
+        "whose subtree holds a falsy node and max_depth of any tree with one (preorder_iter `if tree`), left/right_sibling below a falsy parent "
+        "(`if self.parent:`), diameter above a falsy node (`if child`, raises ValueError when all children are falsy), BinaryNode.is_leaf above a "
+        "falsy child; everything else (ancestors, root, depth, node_path, is_root, is_leaf, siblings, go_to) is observed on them",
+        "value-equality subclasses: NOT observed: descendants of a node with an equal proper descendant and max_depth when a node equals the root "
+        "(`_node != self`), left/right_sibling among equal siblings (children.index(self)); go_to pairs whose two root paths hold two distinct "
+        "equal nodes are not generated (go_to works on ==, set() and list.index); these subclasses are built once with children= only",
         "object histories are limited to rebuild-after-detach and one subtree round trip; no failing hooks, no sort(), no DAGNode",
     ]
